@@ -594,6 +594,45 @@ def part_output_decision(chk):
         chk.coverage["disagreements_checked"] += len(exprs)
 
 
+def names_that_look_like_options(chk):
+    """The identifier grammar allows `-` anywhere in a segment, also in front: an experiment `-x` of the root package, a
+    package `-p`, names such as `--help`.  Their output directories (`-x.task.<ts>`, `-p/...`) are tar MEMBER names, not
+    options: `cond archive` must succeed and `cond restore` into a checkout lacking the versions must recreate exactly
+    them.  (D42: the member names were handed to tar without `--`; `cond archive` failed for every project that holds
+    such a task.)"""
+    files = {"COND": 'run_experiment(name="-x", run="echo x > $COND_OUT/r")\nrun_experiment(name="--help", run="echo h > $COND_OUT/r")\nrun_experiment(name="plain", run="echo p > $COND_OUT/r")\n'
+                     'group(name="all", deps=[":-x", ":--help", ":plain", "//-p:t", "//-p/-q:-C"])\n',
+             "-p/COND": 'run_experiment(name="t", run="echo t > $COND_OUT/r")\n', "-p/-q/COND": 'run_experiment(name="-C", run="echo c > $COND_OUT/r")\n'}
+    src = implrun.make_project(files, name="dash-src")
+    r = implrun.run_cond(["run", "//:all"], src)
+    rows = sorted((x[0], x[1]) for x in au.project_rows(src))
+    chk.coverage["evaluations"] += 1
+    chk.count("dash-names", "projects")
+    problems = []
+    if r.code != 0 or len(rows) != 5:
+        problems.append("harness: `cond run //:all` exited %s, recorded %r" % (r.code, rows))
+    for argv, want in ((["archive", "-o", "all.tar.gz"], rows), (["archive", "//:-x", "-o", "one.tar.gz"], [k for k in rows if k[0] == "//:-x"]), (["archive", "-l", "//-p/-q:-C", "-o", "deep.tar.gz"], [k for k in rows if k[0] == "//-p/-q:-C"])):
+        if problems:
+            break
+        a = implrun.run_cond(argv, src)
+        chk.coverage["evaluations"] += 1
+        apath = os.path.join(src, argv[-1])
+        if a.code != 0 or not os.path.isfile(apath):
+            problems.append("`cond %s` failed (exit %s): %s" % (" ".join(argv), a.code, implrun.strip_ansi(a.out + a.err).strip()[-200:]))
+            continue
+        dst = implrun.make_project(files, name="dash-dst")
+        rr = implrun.run_cond(["restore", apath], dst)
+        got = sorted((x[0], x[1]) for x in au.project_rows(dst))
+        same = all(implrun.tree_snapshot(os.path.join(dst, au.OUT, au.vdir_rel(*k))) == implrun.tree_snapshot(os.path.join(src, au.OUT, au.vdir_rel(*k))) for k in want) if got == want else False
+        if rr.code != 0 or got != want or not same:
+            problems.append("`cond %s` then `cond restore`: exit %s, restored versions %r (selected: %r), trees identical: %s" % (" ".join(argv), rr.code, got, want, same))
+        shutil.rmtree(os.path.dirname(dst), ignore_errors=True)
+    for msg in problems[:2]:
+        chk.violation("impl-violation", "tasks and packages whose names start with '-': %s" % msg, {"input": {"kind": "dash-names", "files": files}, "oracle_verdict": msg}, match_key={"part": "dash-names"}, size=3)
+    if not problems:
+        chk.coverage["traces_validated_against_impl"] += 3
+
+
 def refused_archives_change_nothing(chk):
     """"Archiving never changes the source project's recorded versions or outputs" -- also when `cond archive` REFUSES
     to write: `-o` names a file that exists (an archive made a moment ago; a file inside a recorded output directory),
@@ -699,6 +738,7 @@ def run(tier, seed, replay=None):
     graphs, ex_b, w_b, nt_b = part_traverse(chk, tier)
     _jobs, ex_c, w_c, meta, nt_c = part_e2e(chk, tier)
     refused_archives_change_nothing(chk)
+    names_that_look_like_options(chk)
     part_output_decision(chk)
     au.equal_timestamps_across_tasks(chk, "C11")
     chk.coverage["distinct_nontrivial"] = nt_a + nt_b + nt_c
